@@ -8,6 +8,11 @@ def events(run):
         yield int(t[0]), t[1:]
 
 
+def cur_shared_default(op):
+    """whole-object read operations of ordered_guarded (read / load / operator T) use the shared side"""
+    return False   # only handle sessions announce their side (acq S ...); whole-object ops are not constrained here
+
+
 def oracle_lockfam(run):
     """Property-level checks on the raw trace, independent of the Lean model's pcs.
     C01/C02: every payload access happens while the accessing thread holds the wrapper's mutex in an adequate mode and no
@@ -16,6 +21,8 @@ def oracle_lockfam(run):
              bool(handle) after unlock() is false; per operation, releases == successful acquisitions.
     C15:     results of whole-object operations follow register semantics w.r.t. the values read/written in their bracket."""
     enabled = True
+    capable = False
+    want_shared = {}   # tid -> the current handle session asked for the shared side
     mode = {}          # tid -> None | 'X' | 'S'
     last_ok = {}       # tid -> outcome of the last lock event in the current op
     acq = {}
@@ -27,7 +34,11 @@ def oracle_lockfam(run):
         k = t[0]
         if k == "cfg":
             enabled = t[4] == "1"
+            capable = t[3] in ("sm", "stm")
+        elif k == "acq":
+            want_shared[tid] = (t[1] == "S")
         elif k == "call":
+            want_shared[tid] = cur_shared_default(t[1])
             cur[tid] = t[1]
             last_ok[tid] = None
             acq[tid] = 0
@@ -35,6 +46,18 @@ def oracle_lockfam(run):
             seen[tid] = []
         elif k in ("mlk", "slk", "mtl", "mtf", "stl", "stf"):
             ok = True if k in ("mlk", "slk") else t[2] == "1"
+            if enabled and capable and want_shared.get(tid) and k[0] == "m":
+                # C02: "with a shared-capable mutex two readers can hold shared handles at the same time"
+                return ("shared access (%s) took the mutex EXCLUSIVELY (%s) although the mutex type is shared-capable: "
+                        "two readers can no longer hold handles at the same time" % (cur.get(tid), k))
+            if not enabled:
+                # C08: with locking disabled an acquisition "never waits for other holders"
+                holders = [u for u, mu in mode.items() if u != tid and mu]
+                if not ok:
+                    return ("locking is disabled but thread %d's acquisition waited on the mutex and gave up (%s failed while "
+                            "%s held it)" % (tid, k, holders))
+                if holders and k in ("mlk", "slk"):
+                    return "locking is disabled but thread %d blocks on the mutex held by %s" % (tid, holders)
             last_ok[tid] = ok
             if ok:
                 m = "X" if k[0] == "m" else "S"
@@ -144,7 +167,7 @@ LF_TIE = (" The model is tied to the source on every run: the unmodified headers
 
 def register(PROPS, COMPONENTS):
     COMPONENTS["lockfam"] = dict(client="lockfam", driver="lockfam", directed_runs=2, quick_runs=1200, thorough_runs=40000,
-                                 oracle=oracle_lockfam,
+                                 oracle=oracle_lockfam, shrinkable=True,   # every op sequence is a valid terminating script
                                  cov_headers=["gmlc/libguarded/handles.hpp", "gmlc/libguarded/guarded.hpp",
                                               "gmlc/libguarded/guarded_opt.hpp", "gmlc/libguarded/shared_guarded.hpp",
                                               "gmlc/libguarded/shared_guarded_opt.hpp", "gmlc/libguarded/ordered_guarded.hpp",
